@@ -66,3 +66,37 @@ Theorem C13_one_batch_per_param_change :
                = Ok (st1, qi, qp, Ready (Some ds), tr).
 Proof. intros; eapply poll_b_param; eauto. Qed.
 Print Assumptions C13_one_batch_per_param_change.
+
+(* ---------------- end to end on the model (BatchCompose.v) ----------------
+   For any adapter whose step function is correct w.r.t. a relation R (step_ok: proved for Head, Tail,
+   Skip, Filter, Sort in C09-C11, preserved by composition in C12): a batch emitted by the batched
+   flavour takes the consumer's view to a view that R relates to the source contents after k >= 1
+   WHOLE source batches - a state the source had between top-level operations (a source batch is
+   one top-level operation or one committed transaction, C07), never a state inside one. *)
+From EB Require Import AdapterCore BatchCompose.
+
+Theorem C13_batch_lands_on_source_batch_boundary :
+  forall (A B St : Type) (on_diff : St -> diff A -> outcome (St * list (diff B)))
+         (on_param : St -> nat -> St * option (list (diff B))) (R : St -> list A -> list B -> Prop),
+    step_ok on_diff R ->
+    forall (hp : bool) st l v (batches : list (list (diff A))) iend pend st' qi' qp' outs tr,
+      R st l v -> batches_valid batches l = true ->
+      poll_b on_diff on_param hp st batches iend [] pend = Ok (st', qi', qp', Ready (Some outs), tr) ->
+      exists k v', 0 < k /\ k <= length batches /\ qi' = skipn k batches /\
+        apply_all_ok outs v = Some v' /\ R st' (after_batches (firstn k batches) l) v'.
+Proof. intros A B St on_diff on_param R; exact (poll_b_lands_on_batch_boundary on_diff on_param R). Qed.
+Print Assumptions C13_batch_lands_on_source_batch_boundary.
+
+(* when the batched flavour answers Pending (or the end) everything queued was consumed without
+   output and the unchanged view stands for the contents after all source batches *)
+Theorem C13_quiet_means_caught_up :
+  forall (A B St : Type) (on_diff : St -> diff A -> outcome (St * list (diff B)))
+         (on_param : St -> nat -> St * option (list (diff B))) (R : St -> list A -> list B -> Prop),
+    step_ok on_diff R ->
+    forall (hp : bool) st l v (batches : list (list (diff A))) iend pend st' qi' qp' r tr,
+      R st l v -> batches_valid batches l = true ->
+      poll_b on_diff on_param hp st batches iend [] pend = Ok (st', qi', qp', r, tr) ->
+      (r = Pending \/ r = Ready None) ->
+      qi' = [] /\ R st' (after_batches batches l) v.
+Proof. intros A B St on_diff on_param R; exact (poll_b_quiet_means_caught_up on_diff on_param R). Qed.
+Print Assumptions C13_quiet_means_caught_up.
